@@ -4,6 +4,7 @@ package c13
 import (
 	"encoding/json"
 	"fmt"
+	"math"
 
 	"gopkg.in/typ.v4/slices"
 	"verif/harness/core"
@@ -13,6 +14,7 @@ type Case struct {
 	Fn    string `json:"fn"`
 	Input []int  `json:"input"`
 	Size  int    `json:"size"`
+	Nil   bool   `json:"nil,omitempty"` // with an empty Input: pass the nil slice
 }
 
 var fns = []string{"Chunk", "ChunkFunc", "Windowed", "WindowedFunc", "Pairs", "PairsFunc"}
@@ -47,12 +49,34 @@ func run(c *core.Ctx) {
 				if (fn == "Pairs" || fn == "PairsFunc") && size > 1 {
 					continue
 				}
-				exec(c, Case{fn, distinct(n), size})
+				exec(c, Case{Fn: fn, Input: distinct(n), Size: size})
 			}
 		}
 	}
 	c.Exhaustive = true
 	c.Note(fmt.Sprintf("exhaustive: all n in 0..%d x size in 1..%d x 6 functions with distinct elements; plus random", maxN, maxN+2))
+	// edge stream: the nil slice with ordinary sizes (all six functions), and the largest size (MaxInt)
+	// on the nil slice, the empty slice and short slices
+	for size := 1; size <= 3; size++ {
+		for _, fn := range fns {
+			if (fn == "Pairs" || fn == "PairsFunc") && size > 1 {
+				continue
+			}
+			exec(c, Case{Fn: fn, Input: []int{}, Size: size, Nil: true})
+		}
+	}
+	edge := func(size int) {
+		for n := 0; n <= 6; n++ {
+			for _, fn := range fns[:4] {
+				exec(c, Case{Fn: fn, Input: distinct(n), Size: size})
+				if n == 0 {
+					exec(c, Case{Fn: fn, Input: []int{}, Size: size, Nil: true})
+				}
+			}
+		}
+	}
+	edge(math.MaxInt)
+	c.Note("edge streams: nil slice x sizes 1..3 x 6 functions; sizes MaxInt, 0 and -1 x n in 0..6 (and the nil slice) x Chunk/ChunkFunc/Windowed/WindowedFunc")
 	// oracle-heavy, model-sampled: lengths and sizes around powers of two up to 4097 (a defect may hide
 	// behind a size threshold); every case goes through the oracle, one in 40 through the model
 	var dims []int
@@ -76,7 +100,7 @@ func run(c *core.Ctx) {
 				}
 				k++
 				small := n <= 130 || fn == "Pairs" || fn == "PairsFunc" || fn == "Chunk" || fn == "ChunkFunc"
-				execEmit(c, Case{fn, in, size}, k%40 == 0 && small && ((fn != "Windowed" && fn != "WindowedFunc") || (n-size+1)*size < 4000))
+				execEmit(c, Case{Fn: fn, Input: in, Size: size}, k%40 == 0 && small && ((fn != "Windowed" && fn != "WindowedFunc") || (n-size+1)*size < 4000))
 			}
 		}
 	}
@@ -94,58 +118,284 @@ func run(c *core.Ctx) {
 				size = n - c.Rng.Intn(3)
 			}
 		}
-		exec(c, Case{fn, in, size})
+		exec(c, Case{Fn: fn, Input: in, Size: size})
 	}
+	// malformed stream, last (see execEmit): sizes outside the property, 0 and -1. The oracle requires only
+	// that the Func variant does what the slice-returning variant does; neither size is compared with the
+	// model (for size 0 a stat records whether the code did what the model's size-0 branches say).
+	edge(0)
+	edge(-1)
 }
 
 func exec(c *core.Ctx, cs Case) { execEmit(c, cs, true) }
+
+// ---- guarded inputs (as in harness/c14, with a front guard as well): the slice handed to the code is
+// a window of a larger buffer whose other cells hold sentinels, so that a write outside the visible
+// elements (before the slice, or into its spare capacity) is seen ----
+
+const (
+	sentinel   = 777777
+	frontGuard = 2
+	backGuard  = 3
+)
+
+type guard struct {
+	buf  []int // frontGuard sentinels, the input, backGuard sentinels (the input's spare capacity)
+	snap []int // buf as it was built
+}
+
+func guarded(l []int, isNil bool) (in []int, g *guard) {
+	if isNil && len(l) == 0 {
+		return nil, nil
+	}
+	buf := make([]int, frontGuard+len(l)+backGuard)
+	for i := range buf {
+		buf[i] = sentinel + i
+	}
+	copy(buf[frontGuard:], l)
+	return buf[frontGuard : frontGuard+len(l)], &guard{buf, append([]int{}, buf...)}
+}
+
+// changed lists the cells of the buffer (input and guards) that differ from what was built
+func (g *guard) changed() []int {
+	var d []int
+	for i, v := range g.buf {
+		if v != g.snap[i] {
+			d = append(d, i-frontGuard) // as an index of the input: negative = front guard, >= n = spare capacity
+		}
+	}
+	return d
+}
+
+func twin(fn string) string {
+	if len(fn) > 4 && fn[len(fn)-4:] == "Func" {
+		return fn[:len(fn)-4]
+	}
+	return fn + "Func"
+}
+
+// runaway is the outcome of a call that delivered more than n+2 pieces (no function of the property
+// delivers more than n+1, whatever the size): the harness stops it there, so that a callback loop that
+// never ends is a recorded failure with its input instead of a process that eats the memory.
+const runaway = "Runaway"
+
+type stopRunaway struct{}
+
+// call runs fn of the real package on in and returns copies of the pieces it returned (or passed to its
+// callback), in order, and "" / the panic kind / runaway. probe, if not nil, is given every piece as
+// delivered (the returned sub-slice, or the callback's argument while the callback runs) together with
+// its position.
+func call(fn string, in []int, size int, probe func(k int, p []int)) (pieces [][]int, kind string) {
+	limit := len(in) + 2
+	add := func(cp []int) {
+		if len(pieces) >= limit {
+			panic(stopRunaway{})
+		}
+		pieces = append(pieces, cp)
+	}
+	take := func(p []int) {
+		add(append([]int{}, p...))
+		if probe != nil {
+			probe(len(pieces)-1, p)
+		}
+	}
+	stopped := false
+	kind = core.Try(func() {
+		defer func() {
+			if r := recover(); r != nil {
+				if _, ok := r.(stopRunaway); !ok {
+					panic(r)
+				}
+				stopped = true
+			}
+		}()
+		switch fn {
+		case "Chunk":
+			for _, p := range slices.Chunk(in, size) {
+				take(p)
+			}
+		case "ChunkFunc":
+			slices.ChunkFunc(in, size, take)
+		case "Windowed":
+			for _, p := range slices.Windowed(in, size) {
+				take(p)
+			}
+		case "WindowedFunc":
+			slices.WindowedFunc(in, size, take)
+		case "Pairs":
+			for _, p := range slices.Pairs(in) {
+				add([]int{p[0], p[1]})
+			}
+		case "PairsFunc":
+			slices.PairsFunc(in, func(a, b int) { add([]int{a, b}) })
+		}
+	})
+	if stopped {
+		kind = runaway
+	}
+	return pieces, kind
+}
+
+// outcome: what is compared for sizes < 1 (never the panic message or a kind derived from it)
+func outcome(kind string) string {
+	switch kind {
+	case "":
+		return "returned"
+	case runaway:
+		return "did not stop delivering pieces"
+	}
+	return "panicked"
+}
+
+// size0AsModel: what Slices/Partition.v computes for size 0, written out
+func size0AsModel(cs Case, n int, pieces [][]int, kind string) bool {
+	switch cs.Fn {
+	case "Chunk", "ChunkFunc":
+		if n == 0 {
+			return kind == "" && len(pieces) == 0
+		}
+		return outcome(kind) == "panicked"
+	}
+	if kind != "" || len(pieces) != n+1 {
+		return false
+	}
+	for _, p := range pieces {
+		if len(p) != 0 {
+			return false
+		}
+	}
+	return true
+}
+
+func eqPieces(a, b [][]int) bool {
+	if len(a) != len(b) {
+		return false
+	}
+	for i := range a {
+		if !core.Eq(a[i], b[i]) {
+			return false
+		}
+	}
+	return true
+}
 
 // execEmit: with emit=false the case is checked by the direct oracle only (large inputs: the Go side
 // is cheap, the Coq replay is not)
 func execEmit(c *core.Ctx, cs Case, emit bool) {
 	c.Begin(cs)
 	c.Count("fn_" + cs.Fn)
-	in := append([]int{}, cs.Input...)
-	var pieces [][]int
-	kind := core.Try(func() {
-		switch cs.Fn {
-		case "Chunk":
-			for _, p := range slices.Chunk(in, cs.Size) {
-				pieces = append(pieces, append([]int{}, p...))
-			}
-		case "ChunkFunc":
-			slices.ChunkFunc(in, cs.Size, func(p []int) { pieces = append(pieces, append([]int{}, p...)) })
-		case "Windowed":
-			for _, p := range slices.Windowed(in, cs.Size) {
-				pieces = append(pieces, append([]int{}, p...))
-			}
-		case "WindowedFunc":
-			slices.WindowedFunc(in, cs.Size, func(p []int) { pieces = append(pieces, append([]int{}, p...)) })
-		case "Pairs":
-			for _, p := range slices.Pairs(in) {
-				pieces = append(pieces, []int{p[0], p[1]})
-			}
-		case "PairsFunc":
-			slices.PairsFunc(in, func(a, b int) { pieces = append(pieces, []int{a, b}) })
-		}
-	})
 	n := len(cs.Input)
+	isPairs := cs.Fn == "Pairs" || cs.Fn == "PairsFunc"
+	in, g := guarded(cs.Input, cs.Nil)
+	if in == nil {
+		c.Count("nil_input")
+	}
+	switch {
+	case isPairs:
+	case cs.Size == 0:
+		c.Count("size_0")
+	case cs.Size < 0:
+		c.Count("size_negative")
+	case cs.Size == math.MaxInt:
+		c.Count("size_maxint")
+	}
+	// sub-slice probe (oracle only; the value model cannot express it): a write through a delivered
+	// piece either changes nothing of the input (the piece is a copy: the property does not forbid it)
+	// or exactly the input element the piece element stands for (the piece is the documented sub-slice
+	// slice[j:j+size]); anything else (another element, a guard cell) is a failure.
+	step := 1 // Windowed: piece k starts at k
+	if cs.Fn == "Chunk" || cs.Fn == "ChunkFunc" {
+		step = cs.Size // piece k starts at k*size
+	}
+	var probe func(k int, p []int)
+	var probeFail []string
+	if g != nil && !isPairs && cs.Size >= 1 {
+		probe = func(k int, p []int) {
+			if len(p) == 0 || !(n <= 64 || k < 2 || k%61 == 0) {
+				return
+			}
+			for _, o := range []int{0, len(p) - 1} {
+				old := p[o]
+				p[o] = old + 1000003
+				d := g.changed()
+				p[o] = old
+				switch {
+				case len(d) == 0:
+					c.Count("probe_piece_is_copy")
+				case len(d) == 1 && d[0] == k*step+o:
+					c.Count("probe_piece_is_subslice")
+				default:
+					probeFail = append(probeFail, fmt.Sprintf("piece %d offset %d: changed input indices %v, want [%d] (or none)", k, o, d, k*step+o))
+				}
+			}
+		}
+	}
+	pieces, kind := call(cs.Fn, in, cs.Size, probe)
 	if n > cs.Size && cs.Size > 1 && n%cs.Size != 0 {
 		c.Nontrivial() // several pieces and a remainder
 	}
 	if kind != "" {
-		c.Count("panic_" + kind)
+		c.Count("panic")
 	}
 	// direct oracle: the property itself, on the implementation's output
-	if !core.Eq(in, cs.Input) {
-		c.Fail("input modified", fmt.Sprint(in))
+	if g != nil {
+		if d := g.changed(); len(d) > 0 {
+			c.Fail("input or memory around it modified", fmt.Sprintf("changed input indices %v (negative: before the slice; >= %d: spare capacity)", d, n))
+		}
 	}
-	if cs.Size >= 1 {
-		if kind != "" {
+	if cs.Size >= 1 || isPairs {
+		if kind == runaway {
+			c.Fail(fmt.Sprintf("more than %d pieces delivered (stopped by the harness)", n+2), fmt.Sprint(pieces))
+		} else if kind != "" {
 			c.Fail("panic", kind)
 		} else if msg := oracle(cs, pieces); msg != "" {
 			c.Fail(msg, fmt.Sprint(pieces))
+		} else if len(probeFail) > 0 {
+			// the pieces have the right contents (so k*step+o is where each element came from)
+			c.Fail("write through a piece lands in the wrong place", probeFail[0])
 		}
+	} else {
+		// size < 1 is outside the property: what the pieces are, or whether the call panics, is not
+		// fixed. Required only: the Func variant does what the slice-returning variant does (both
+		// panic, whatever the message, or both deliver the same pieces).
+		// Such a difference is reported only when no failure inside the property's domain has been
+		// recorded (this stream runs last): the failing input of a VIOLATION is then one the property
+		// speaks about whenever there is one.
+		fail := func(what, detail string) {
+			if len(c.Failures) > 0 {
+				c.Count("size_below_1_difference_not_reported")
+				return
+			}
+			c.Fail(what, detail)
+		}
+		in2, g2 := guarded(cs.Input, cs.Nil)
+		pieces2, kind2 := call(twin(cs.Fn), in2, cs.Size, nil)
+		if outcome(kind) != outcome(kind2) {
+			fail("size < 1: "+cs.Fn+" "+outcome(kind)+", "+twin(cs.Fn)+" "+outcome(kind2), fmt.Sprintf("%s: %v, %s: %v", cs.Fn, pieces, twin(cs.Fn), pieces2))
+		} else if kind == "" && !eqPieces(pieces, pieces2) {
+			fail("size < 1: "+cs.Fn+" and "+twin(cs.Fn)+" deliver different pieces", fmt.Sprintf("%v vs %v", pieces, pieces2))
+		}
+		if g2 != nil {
+			if d := g2.changed(); len(d) > 0 {
+				c.Fail("input or memory around it modified", fmt.Sprintf("%s: changed input indices %v", twin(cs.Fn), d))
+			}
+		}
+		// Not a check, a record: does the code still do at size 0 what the model's size-0 branches say
+		// (Chunk/ChunkFunc: nothing for the empty input, else a panic; Windowed/WindowedFunc: n+1 empty
+		// windows)? No theorem uses those branches and a difference is not a failure.
+		if cs.Size == 0 {
+			if size0AsModel(cs, n, pieces, kind) {
+				c.Count("size0_matches_model")
+			} else {
+				c.Count("size0_differs_from_model")
+			}
+		}
+		// sizes < 1 are never compared with the model (check_case rejects them): oracle only
+		c.Count("oracle_only")
+		return
+	}
+	if kind == runaway {
+		kind = "OtherPanic" // for the model comparison: did not return
 	}
 	if !emit {
 		c.Count("oracle_only")
@@ -158,7 +408,10 @@ func oracle(cs Case, pieces [][]int) string {
 	n, size := len(cs.Input), cs.Size
 	switch cs.Fn {
 	case "Chunk", "ChunkFunc":
-		want := (n + size - 1) / size
+		want := n / size // ceil(n/size), without overflow for sizes near MaxInt
+		if n%size != 0 {
+			want++
+		}
 		if len(pieces) != want {
 			return fmt.Sprintf("chunk count %d, want ceil(%d/%d)=%d", len(pieces), n, size, want)
 		}
